@@ -19,13 +19,27 @@
 (* it never changes the expected outcome - the typed entry points are      *)
 (* required to agree with the untyped ones.                                *)
 (*                                                                         *)
-(* STAGE 2 extension point (objects, one-of, refs, scopes): add the kinds  *)
-(*   [kind |-> "object", id, props : <<Prop..>>, layout, id_unenforced]    *)
-(*   [kind |-> "oneof", disc, field, inlined, members : <<<<key, Schema>>..>>] *)
-(*   [kind |-> "ref", id, ns]   [kind |-> "scope", root, objects : <<..>>] *)
-(* with arms in WF, Depth, SubSchemas below and in every CASE of           *)
-(* SchemaSem / SchemaDecl (a missing arm is a TLC evaluation error, so     *)
-(* nothing can be forgotten silently).                                     *)
+(* Objects, one-of, references, scopes (stage 2):                          *)
+(*   [kind |-> "object", id, props : <<Prop..>>, layout, typed]            *)
+(*        layout "map": NewObjectSchema; otherwise a LayoutId of the       *)
+(*        harness catalogue: NewStructMappedObjectSchema[T] (typed:        *)
+(*        NewTypedObject[T])                                               *)
+(*   Prop = [name, type : Schema, required, required_if, required_if_not,  *)
+(*           conflicts : <<name..>>, default : Opt(raw value - the decoded *)
+(*           JSON text), disabled, empty_is_default]   NewPropertySchema   *)
+(*   [kind |-> "oneof", disc : "string"|"int", field, inlined,             *)
+(*    members : <<<<key, object|ref>>..>>]  NewOneOfStringSchema/IntSchema *)
+(*   [kind |-> "ref", id]                   NewRefSchema (own namespace)   *)
+(*   [kind |-> "scope", root : id, objects : <<object..>>] NewScopeSchema  *)
+(* Every CASE over kinds in SchemaSem / SchemaDecl lists all of them (no   *)
+(* OTHER), so a forgotten arm is a TLC evaluation error.                   *)
+(*                                                                         *)
+(* References are given meaning by UNFOLDING: the operations on a scope    *)
+(* are the operations on its root object with every reference replaced by  *)
+(* the referenced object, as deep as the argument can reach (Unfold).      *)
+(* That references behave like the inlined object is C14's property; here  *)
+(* it is the definition, and the harness builds the real NewScopeSchema /  *)
+(* NewRefSchema from the un-unfolded AST.                                  *)
 (***************************************************************************)
 EXTENDS Values, Strings
 
@@ -43,9 +57,48 @@ ListS(items, min, max, typed) == [kind |-> "list", items |-> items, min |-> min,
 MapS(keys, values, min, max, typed) ==
     [kind |-> "map", keys |-> keys, values |-> values, min |-> min, max |-> max, typed |-> typed]
 
+PropS(name, type, req, rif, rifn, confl, def, dis, eid) ==
+    [name |-> name, type |-> type, required |-> req, required_if |-> rif, required_if_not |-> rifn,
+     conflicts |-> confl, default |-> def, disabled |-> dis, empty_is_default |-> eid]
+\* a plain optional / required property
+Prop(name, type, req) == PropS(name, type, req, <<>>, <<>>, <<>>, None, FALSE, FALSE)
+ObjectS(id, props, layout, typed) == [kind |-> "object", id |-> id, props |-> props, layout |-> layout, typed |-> typed]
+OneOfS(disc, field, inlined, members) == [kind |-> "oneof", disc |-> disc, field |-> field, inlined |-> inlined, members |-> members]
+RefS(id) == [kind |-> "ref", id |-> id]
+ScopeS(root, objects) == [kind |-> "scope", root |-> root, objects |-> objects]
+RefCut == [kind |-> "refcut"]     \* a reference below the depth any argument reaches (Unfold)
+
 ScalarKinds == {"int", "float", "string", "bool", "pattern", "enum_int", "enum_string", "any"}
 ContainerKinds == {"list", "map"}
-SchemaKinds == ScalarKinds \cup ContainerKinds
+ObjectKinds == {"object", "oneof", "ref", "scope"}
+SchemaKinds == ScalarKinds \cup ContainerKinds \cup ObjectKinds
+
+\* ------------------------------------------------------------------ struct layouts (harness/catalog)
+\* A layout is a Go struct type (and whether the schema's type parameter is the struct or a
+\* pointer to it); a property NAME selects the field, so within a struct-mapped object the name
+\* fixes the Go type of the property:
+\*   fk  int | string | bool | float | named (a defined string type) | list_int | list_string |
+\*       map_string_int | any | sub (a Sub struct by value) | subp (a pointer to a Sub struct)
+\*   ptr the field is a pointer to that type (nil = absent)
+\* Checked against the real struct types at harness start-up (bind vector).
+Fld(name, fk, ptr) == [name |-> name, fk |-> fk, ptr |-> ptr]
+WideFields(ptr) ==
+    << Fld("a", "int", ptr), Fld("b", "string", ptr), Fld("c", "bool", ptr), Fld("f", "float", ptr), Fld("e", "named", ptr),
+       Fld("l", "list_int", FALSE), Fld("ls", "list_string", FALSE), Fld("m", "map_string_int", FALSE), Fld("x", "any", FALSE),
+       Fld("s", "sub", FALSE), Fld("sp", "subp", FALSE) >>
+Layouts ==
+    [ wide   |-> [recv |-> "value", fields |-> WideFields(FALSE)],          \* catalog.Wide
+      wide_p |-> [recv |-> "pointer", fields |-> WideFields(FALSE)],        \* *catalog.Wide
+      ptrs   |-> [recv |-> "value", fields |-> WideFields(TRUE)],           \* catalog.Ptrs (pointer fields)
+      notag  |-> [recv |-> "value", fields |-> << Fld("A", "int", FALSE), Fld("B", "string", FALSE) >>],   \* catalog.NoTag
+      sub    |-> [recv |-> "value", fields |-> << Fld("a", "int", FALSE), Fld("b", "string", FALSE) >>],   \* catalog.Sub
+      sub_p  |-> [recv |-> "pointer", fields |-> << Fld("a", "int", FALSE), Fld("b", "string", FALSE) >>], \* *catalog.Sub
+      subptrs |-> [recv |-> "value", fields |-> << Fld("a", "int", TRUE), Fld("b", "string", TRUE) >>] ]   \* catalog.SubPtrs
+LayoutIds == DOMAIN Layouts
+FieldOf(layout, name) ==
+    LET fs == Layouts[layout].fields IN fs[CHOOSE i \in DOMAIN fs : fs[i].name = name]
+RecvOf(t) == IF t.layout = "map" THEN "map" ELSE Layouts[t.layout].recv
+HasField(layout, name) == \E i \in DOMAIN Layouts[layout].fields : Layouts[layout].fields[i].name = name
 MapKeyKinds == {"string", "int", "enum_string", "enum_int"}   \* NewMapSchema panics on others (documented)
 
 Range(s) == {s[i] : i \in DOMAIN s}
@@ -56,7 +109,53 @@ NonNegOpt(o) == o.some => o.v >= 0
 \* ------------------------------------------------------------------ well-formedness
 \* Mis-built schemas are outside every property (the SDK documents that mis-building a
 \* schema in Go code panics or is undefined): generators produce WF schemas only.
+\* a field that can hold "nothing" (nil pointer / nil interface)
+Nullable(f) == f.ptr \/ f.fk \in {"any", "subp"}
+\* which schema a struct field of kind fk can hold
+RECURSIVE FieldFits(_, _)
+FieldFits(fk, t) ==
+    CASE fk = "int" -> t.kind \in {"int", "enum_int"}
+      [] fk = "string" -> t.kind = "string" \/ (t.kind = "enum_string" /\ ~t.typed)
+      [] fk = "bool" -> t.kind = "bool"
+      [] fk = "float" -> t.kind = "float"
+      [] fk = "named" -> t.kind = "enum_string" /\ t.typed
+      [] fk = "list_int" -> t.kind = "list" /\ t.items.kind = "int"
+      [] fk = "list_string" -> t.kind = "list" /\ t.items.kind = "string"
+      [] fk = "map_string_int" -> t.kind = "map" /\ t.keys.kind = "string" /\ t.values.kind = "int"
+      [] fk = "any" -> t.kind \in {"any", "oneof"} \/ (t.kind = "object" /\ t.layout = "map")
+      [] fk = "sub" -> t.kind = "ref" \/ (t.kind = "object" /\ t.layout = "sub")
+      [] fk = "subp" -> t.kind = "ref" \/ (t.kind = "object" /\ t.layout \in {"sub", "sub_p"})
+
+\* ids referenced below a schema
+RECURSIVE RefsIn(_)
+RefsIn(s) ==
+    CASE s.kind \in ScalarKinds -> {}
+      [] s.kind = "list" -> RefsIn(s.items)
+      [] s.kind = "map" -> RefsIn(s.keys) \cup RefsIn(s.values)
+      [] s.kind = "object" -> UNION {RefsIn(s.props[i].type) : i \in DOMAIN s.props}
+      [] s.kind = "oneof" -> UNION {RefsIn(s.members[i][2]) : i \in DOMAIN s.members}
+      [] s.kind = "ref" -> {s.id}
+      [] s.kind = "scope" -> {}
+      [] s.kind = "refcut" -> {}
+
 RECURSIVE WF(_)
+WFObject(s) ==
+    LET names == {s.props[i].name : i \in DOMAIN s.props} IN
+    /\ \A i, j \in DOMAIN s.props : i # j => s.props[i].name # s.props[j].name
+    /\ \A i \in DOMAIN s.props :
+          LET p == s.props[i] IN
+          /\ WF(p.type)
+          /\ p.name \in TokIds
+          \* rule lists name OTHER properties of the same object
+          /\ Range(p.required_if) \cup Range(p.required_if_not) \cup Range(p.conflicts) \subseteq names \ {p.name}
+          /\ Distinct(p.required_if) /\ Distinct(p.required_if_not) /\ Distinct(p.conflicts)
+          \* struct-mapped: the named field exists and can hold the property's type
+          /\ s.layout # "map" => HasField(s.layout, p.name) /\ FieldFits(FieldOf(s.layout, p.name).fk, p.type)
+          \* caveat (ii) of DESIGN 3: a by-value field cannot represent absence, so a property that can
+          \* be absent after defaulting is a pointer / nil-able field or treats its empty value as absence
+          /\ (s.layout # "map" /\ ~Nullable(FieldOf(s.layout, p.name)))
+                => (p.required \/ p.default.some \/ p.empty_is_default \/ FieldOf(s.layout, p.name).fk = "sub")
+    /\ s.layout \in {"map"} \cup LayoutIds
 WF(s) ==
     CASE s.kind = "int" ->
             /\ OrderedOpt(s.min, s.max)
@@ -78,12 +177,58 @@ WF(s) ==
       [] s.kind = "map" ->
             /\ OrderedOpt(s.min, s.max) /\ NonNegOpt(s.min) /\ NonNegOpt(s.max)
             /\ s.keys.kind \in MapKeyKinds /\ WF(s.keys) /\ WF(s.values)
+      [] s.kind = "object" -> WFObject(s)
+      [] s.kind = "oneof" ->
+            /\ s.disc \in {"string", "int"} /\ Len(s.members) >= 1
+            /\ \A i, j \in DOMAIN s.members : i # j => s.members[i][1] # s.members[j][1]
+            /\ \A i \in DOMAIN s.members : s.members[i][2].kind \in {"object", "ref"} /\ WF(s.members[i][2])
+            \* construction-time agreement (oneof.go:409; panics otherwise - documented): inlined <=> every
+            \* member declares the discriminator field, of the discriminator's kind
+            /\ \A i \in DOMAIN s.members : s.members[i][2].kind = "object" =>
+                    LET m == s.members[i][2]
+                        has == \E j \in DOMAIN m.props : m.props[j].name = s.field
+                    IN /\ has = s.inlined
+                       /\ \A j \in DOMAIN m.props : m.props[j].name = s.field =>
+                              m.props[j].type.kind \in (IF s.disc = "int" THEN {"int", "enum_int"} ELSE {"string", "enum_string"})
+            \* struct-mapped members are told apart by their Go type
+            /\ \A i, j \in DOMAIN s.members :
+                    (i # j /\ s.members[i][2].kind = "object" /\ s.members[j][2].kind = "object" /\ s.members[i][2].layout # "map")
+                        => s.members[i][2].layout # s.members[j][2].layout
+      [] s.kind = "ref" -> TRUE                \* linked by the enclosing scope (WFScope)
+      [] s.kind = "scope" ->
+            /\ \A i \in DOMAIN s.objects : s.objects[i].kind = "object" /\ WF(s.objects[i])
+            /\ \A i, j \in DOMAIN s.objects : i # j => s.objects[i].id # s.objects[j].id
+            /\ \E i \in DOMAIN s.objects : s.objects[i].id = s.root
+            /\ \A i \in DOMAIN s.objects : RefsIn(s.objects[i]) \subseteq {s.objects[j].id : j \in DOMAIN s.objects}
 
 RECURSIVE Depth(_)
 Depth(s) ==
     CASE s.kind \in ScalarKinds -> 1
       [] s.kind = "list" -> 1 + Depth(s.items)
       [] s.kind = "map" -> 1 + (IF Depth(s.keys) > Depth(s.values) THEN Depth(s.keys) ELSE Depth(s.values))
+      [] s.kind = "object" -> 1 + MaxOver([i \in 1..Len(s.props) |-> Depth(s.props[i].type)], Len(s.props))
+      [] s.kind = "oneof" -> 1 + MaxOver([i \in 1..Len(s.members) |-> Depth(s.members[i][2])], Len(s.members))
+      [] s.kind \in {"ref", "refcut"} -> 1
+      [] s.kind = "scope" -> 1 + MaxOver([i \in 1..Len(s.objects) |-> Depth(s.objects[i])], Len(s.objects))
+
+\* ------------------------------------------------------------------ references
+\* the object a reference denotes in a scope's table
+ObjById(objs, id) == objs[CHOOSE i \in DOMAIN objs : objs[i].id = id]
+\* replace every reference by the referenced object, d levels of references deep
+RECURSIVE UnfoldIn(_, _, _)
+UnfoldIn(objs, s, d) ==
+    CASE s.kind \in ScalarKinds -> s
+      [] s.kind = "list" -> [s EXCEPT !.items = UnfoldIn(objs, s.items, d)]
+      [] s.kind = "map" -> [s EXCEPT !.keys = UnfoldIn(objs, s.keys, d), !.values = UnfoldIn(objs, s.values, d)]
+      [] s.kind = "object" ->
+            [s EXCEPT !.props = [i \in DOMAIN s.props |-> [s.props[i] EXCEPT !.type = UnfoldIn(objs, s.props[i].type, d)]]]
+      [] s.kind = "oneof" ->
+            [s EXCEPT !.members = [i \in DOMAIN s.members |-> <<s.members[i][1], UnfoldIn(objs, s.members[i][2], d)>>]]
+      [] s.kind = "ref" -> IF d = 0 THEN RefCut ELSE UnfoldIn(objs, ObjById(objs, s.id), d - 1)
+      [] s.kind = "scope" -> UnfoldIn(s.objects, ObjById(s.objects, s.root), d)     \* an inner scope has its own table
+      [] s.kind = "refcut" -> s
+\* a scope as seen by an argument of nesting depth n
+Unfold(scope, n) == UnfoldIn(scope.objects, ObjById(scope.objects, scope.root), n + 1)
 
 \* ------------------------------------------------------------------ bounded generators
 \* Option sets
